@@ -214,13 +214,16 @@ def run(tier, seed):
         trusted_base=lc.TRUSTED + ["data is touched only through the guard (Rust guard types): the access kind of a guard is its mode",
                                    "canonical-state oracle of harness/src/sched.rs (used for the search and the recorded findings only)"],
         checker_cmd="make -C coq Properties/C16.vo && Print Assumptions per theorem && Eval vm_compute verdict_n on the logged traces",
-        assumptions=["[P] serializability is proved for ALL interleavings of transactions meeting the criteria; the premise is established for the OBSERVED traces of the "
+        assumptions=["[U for the one-section footprint classes] C16_serializable_footprint_classes: for EVERY world, any number of concurrent calls of the 7 classes with "
+                     "two_phase_class = true (single-lock reads / writes of an element, model or file; item_name; is_identifiable) whose lock trace is the footprint function "
+                     "of Conc/Footprint.v (tied event by event to the hook traces on every run) every complete interleaving is serial",
+                     "[P] serializability is proved for ALL interleavings of transactions meeting the criteria; the premise is established for the OBSERVED traces of the "
                      "enumerated operation instances, not for all states",
                      "[P] most multi-step operations are NOT two-phase (model(), min_version() and path walks release before the main critical section; load_buffer, "
                      "serialize, move, rename are sequences of critical sections): they are listed under classes_not_two_phase and are NOT claimed serializable; "
                      "non-serializable interleavings found for them are recorded findings or listed as unproved",
                      "[P] parking_lot, real timeouts and fairness are modelled, not verified; iterator-draining instances are compositions of next() calls"],
-        extra={"theorem_kinds": {"C16_two_phase_serializable": "U", "C16_bail_ok": "U", "C16_bail_before_write_no_effect": "U", "C16_guard_traces_well_locked": "U"}})
+        extra={"theorem_kinds": {"C16_two_phase_serializable": "U", "C16_bail_ok": "U", "C16_bail_before_write_no_effect": "U", "C16_guard_traces_well_locked": "U", "C16_serializable_footprint_classes": "U (all worlds)"}})
 
 
 def replay(path):
